@@ -12,12 +12,15 @@ from .. import lib
 from ..lib import cb, cl, ce, coq_bytes, cbool, CN
 
 IMPORTS = "Model.Casing"
+GAP_IMPORTS = "Model.Casing Model.C19GapDefs Model.C19GapCv"
+EXTRA_TARGETS = ["Model/C19GapCv.vo"]            # evaluation helpers of the stage "gap tie"; no Properties file depends on it
 A8 = "abAB01_."                 # the alphabet of the design probe: two lower, two upper, two digits, "_", "."
 ABOUND = "azAZ09_.-@[`{/:"      # range ends of [a-z] [A-Z] [0-9] and the ASCII characters just outside them
 ADEEP = "aB1_"                  # thorough tier: longer strings over a small alphabet
 
 CLS_PASCAL = "pascal-not-idempotent"            # K10
 CLS_CLASS = "class-name-not-sanitised"          # K11
+CLS_SIBLING = "sibling-attribute-collision"     # K38
 WITNESSES = ["address_line_1", "x_y_z", "a_b", "_", "_1", "none", "HTTPStatus", "fooBAR", "ipv4_address", "from",
              "a_b_c", "ab_c_d", "x_y1_z", "x_y_z1", "x_y_zz", "line_1a", "_1_a", "a1_2", "None", "true", "False"]
 
@@ -35,6 +38,13 @@ TRUSTED = [
     "two live patterns on the names of the run, every group of every match compared (stage 'regex spec')",
     "specification coq/Spec/C19Unicode.v: the same matcher on the CODE POINTS of a str, UTF-8 encoding; proved: casing on code "
     "points, then UTF-8 = the model on the UTF-8 bytes (C19_*_code_points); compared with the real functions on non-ASCII strings",
+    "class-level predicates coq/Model/C19GapDefs.v (fields_of, legacy_rule_ok, json_rule_ok, keys_back), which the gap-closing theorems "
+    "are stated over: evaluated by vm_compute (coq/Model/C19GapCv.v) on generated lists of 2-5 sibling proto field names on every run "
+    "and compared with a real message class built from the same names through the public field API (attributes, the key each field "
+    "emits under both casings, delivery of camelCase key / snake_case key / proto name by from_dict in class and instance form and by "
+    "from_pydict, the whole object through to_dict -> from_dict), with a Python reading of the two protoc rules "
+    "(ToLowercaseWithoutUnderscores, ToJsonName), and - on a sample - with the verdict of the real protoc and the attributes the real "
+    "plugin generates (stage 'gap tie'); the rule of protoc <= 21 itself has no executable reference in this sandbox (libprotoc 35.1)",
     "translators harness/gen_c19.py (regex source strings and the patterns actually passed to re.sub, compared in Model/Casing.v) "
     "and harness/gen_tables.py (keyword.kwlist of the running interpreter)",
     "Python side: enumeration order of the sweeps, Fletcher checksum, dynamic construction of one-field / few-field message classes "
@@ -54,7 +64,10 @@ ASSUMPTIONS = [
 RULE = ("every string of length <= N over {a,b,A,B,0,1,_,.} (N=5 quick, 6 thorough) and of length <= 3/4 over the 15 range-boundary "
         "characters, by checksum; keyword.kwlist, softkwlist, dir(builtins), the corpus corpus/C19-names.txt and random word-structured "
         "identifiers case by case; one-field message classes for every distinct Python field name reached, few-field classes for "
-        "colliding names; non-trivial = the name has >= 2 words or needs sanitising; distinct = distinct input string")
+        "colliding names; non-trivial = the name has >= 2 words or needs sanitising; distinct = distinct input string; gap tie: "
+        "30-odd fixed lists plus 300 (quick) / 3000 (thorough) random lists of 2-5 sibling proto identifiers spelled from a small word "
+        "list (about a third built to violate the rule of protoc <= 21: the same words spelled twice), 24 / 200 of them through protoc; "
+        "counted per verdict combination under gap_class:* / gap_protoc:*")
 
 
 # ----------------------------------------------------------------------------------------------
@@ -479,6 +492,400 @@ def plugin_stage(ctx, I, names, add):
             ctx.fail("oracle", f"protoc accepts sibling fields {a!r} and {b!r}; the plugin maps both to the attribute {I.N.pythonize_field_name(a)!r}: "
                                f"the class has one field and a value is silently dropped ({(line or [out2[-200:]])[0]})",
                      cls="sibling-attribute-collision" if I.N.pythonize_field_name(a) == I.N.pythonize_field_name(b) else "raised", input=[a, b])
+    # K39: siblings with DISTINCT attributes whose camelCase keys coincide (Foo1 / foo_1 -> foo1 / foo_1, both keyed "foo1"):
+    # protoc >= 22 accepts them (JSON names Foo1 / foo1 differ), to_dict writes one key for two fields and a value is lost
+    for a, b in (("Foo1", "foo_1"), ("A42", "a_42")):
+        rc, out, out_dir = plugin_util.generate(ctx.work, {"k39.proto": f"syntax = \"proto3\";\npackage k39;\nmessage M {{ int32 {a} = 1; int32 {b} = 2; }}\n"},
+                                                f"c19k39{ctx.seed}{a}")
+        ctx.count("sibling_key_probes")
+        if rc != 0:
+            ctx.count("sibling_key_probes_rejected_by_protoc")
+            continue
+        code = (f"import importlib; m = importlib.import_module('c19k39{ctx.seed}{a}.k39'); x = m.M.FromString(bytes.fromhex('08051007')); "
+                "d = x.to_dict(); y = m.M().from_dict(d); print('K39', len(x._betterproto.meta_by_field_name), len(d), bytes(y).hex())")
+        rc2, out2 = plugin_util.run_in_subprocess(ctx.work, code, timeout=120)
+        line = [l for l in out2.splitlines() if l.startswith("K39 ")]
+        if not line or line[0].split()[1:] != ["2", "2", "08051007"]:
+            camel_same = I.C.camel_case(I.N.pythonize_field_name(a)) == I.C.camel_case(I.N.pythonize_field_name(b))
+            ctx.fail("oracle", f"protoc accepts sibling fields {a!r} and {b!r} (attributes {I.N.pythonize_field_name(a)!r} / {I.N.pythonize_field_name(b)!r}); "
+                               f"to_dict writes one key for both and from_dict(to_dict(m)) loses a value ({(line or [out2[-200:]])[0]}; expected 'K39 2 2 08051007')",
+                     cls="sibling-key-collision" if camel_same and I.N.pythonize_field_name(a) != I.N.pythonize_field_name(b) else "raised", input=[a, b])
+
+
+
+# ----------------------------------------------------------------------------------------------
+# stage "gap tie": the class-level predicates of Model/C19GapDefs.v (fields_of, legacy_rule_ok, json_rule_ok, keys_back) against
+# real message classes built from the same lists of sibling proto field names, and against the real protoc
+GAP_WORDS = ["foo", "bar", "x", "y", "z", "a", "b", "id", "http", "status", "line", "ip", "v4", "a1", "from", "class", "none",
+             "my", "url", "n", "1", "42", "is", "x1y"]
+GAP_FIXED = [["FooBar", "foo_bar"], ["foo_bar", "FooBar"], ["x_y_z", "x_yz"], ["x_yz", "x_y_z"], ["xYZ", "x_y_z"], ["x_y_z", "xYZ"],
+             ["a1b", "a1_b"], ["foo", "foo_"], ["foo_", "foo"], ["x", "x_", "y"], ["HTTPStatus", "http_status"],
+             ["address_line_1", "address_line1"], ["address_line_1", "x_y_z", "from", "HTTPStatus", "ipv4_address", "_1"][:5],
+             ["from", "from_"], ["_x", "x"], ["a_b", "ab", "a__b"], ["fooBar", "foo_bar"], ["foo", "Foo", "FOO"],
+             ["class", "Class_"], ["x_yz", "x_y_z", "xyz"], ["a_1", "a1"], ["i_d", "id", "ID"], ["x_y", "x__y"],
+             ["pos_x_y", "pos_xy", "posXY"], ["a", "b", "c", "d", "e"], ["none", "None", "true"], ["x1y", "x1_y", "x_1y"],
+             ["URLPath", "url_path", "urlPath"], ["my_id", "myID", "my_i_d"], ["_1", "_2", "a1"], ["_", "_1", "x"], ["_a", "a_", "_"],
+             ["__", "_"], ["to_dict", "parse", "x"], ["Foo1", "foo_1"], ["A42", "a_42", "b"]]
+
+
+def gap_spell(rng, ws):
+    """one spelling of a word sequence as a proto identifier; every spelling of the same words has the same
+    ToLowercaseWithoutUnderscores key, so two spellings side by side violate the proto3 rule of protoc <= 21"""
+    out = "_" if rng.random() < 0.07 else ""
+    for i, w in enumerate(ws):
+        if i:
+            out += rng.choice(["_", "_", "_", "", "", "__"])
+        out += rng.choice([w, w, w, w.capitalize(), w.capitalize(), w.upper()])
+    if rng.random() < 0.1:
+        out += "_"
+    if not (out[0].isalpha() or out[0] == "_"):
+        out = rng.choice(["_", "a", "A"]) + out
+    return out
+
+
+def gap_list(rng):
+    n = rng.choice([2, 2, 3, 3, 4, 5])
+    names = []
+    k = rng.random()
+    if k < 0.35:                 # built to violate the legacy rule: the same words spelled in two ways
+        ws = [rng.choice(GAP_WORDS) for _ in range(rng.choice([1, 2, 2, 3, 3]))]
+        for _ in range(20):
+            a, b = gap_spell(rng, ws), gap_spell(rng, ws)
+            if k < 0.08:
+                b = a + "_" if not a.endswith("_") else a[:-1]          # differing only by a trailing underscore
+            if a != b and b:
+                names = [a, b]
+                break
+    tries = 0
+    while len(names) < n and tries < 50:
+        tries += 1
+        s = gap_spell(rng, [rng.choice(GAP_WORDS) for _ in range(rng.choice([1, 2, 2, 3, 3, 4]))])
+        if s not in names:
+            names.append(s)
+    rng.shuffle(names)
+    return names
+
+
+def py_legacy_key(s):
+    return s.replace("_", "").lower()
+
+
+def py_json_name(s):
+    """protoc's ToJsonName (descriptor.cc), second reading in Python"""
+    out, cap = [], False
+    for ch in s:
+        if ch == "_":
+            cap = True
+        else:
+            out.append(ch.upper() if cap and "a" <= ch <= "z" else ch)
+            cap = False
+    return "".join(out)
+
+
+def py_rules(names):
+    ident = all(re.fullmatch(r"[A-Za-z_][A-Za-z0-9_]*", s) for s in names)
+    lk, jn = [py_legacy_key(s) for s in names], [py_json_name(s) for s in names]
+    return ident and len(set(lk)) == len(lk), ident and len(set(jn)) == len(jn)
+
+
+def distinct(l):
+    return len(set(l)) == len(l)
+
+
+def coq_names(names):
+    return "[" + "; ".join(qb(s) for s in names) + "]"
+
+
+def gap_observe(I, names):
+    """what a real class with one int32 field per proto name does. Returns a dict; raises on anything unexpected."""
+    bp = I.bp
+    attrs = [I.N.pythonize_field_name(s) for s in names]
+    py_leg, py_json = py_rules(names)
+    ob = {"names": names, "attrs": attrs, "py_legacy": py_leg, "py_json": py_json, "oracle": [], "built": False}
+    ob["lk_jn"] = [(py_legacy_key(s), py_json_name(s)) for s in names]
+    if not distinct(attrs):
+        ob["skip"] = "attribute-collision"
+        # keys of the attributes, each from a one-field class (the class of the list itself cannot be built)
+        keys = []
+        for F in attrs:
+            if not I.usable(F):
+                ob["skip"] = "attribute-collision+unusable"
+                return ob
+            m = I.cls_for([F])(**{F: 7})
+            keys.append((list(m.to_dict(bp.Casing.CAMEL))[0], list(m.to_dict(bp.Casing.SNAKE))[0]))
+            I._cls.pop((F,), None)
+        ob["keys"] = keys
+        return ob
+    if not all(I.usable(F) for F in attrs):
+        ob["skip"] = "unusable-attribute"
+        return ob
+    M = I.cls_for(attrs)
+    vals = [11 + 3 * i for i in range(len(attrs))]
+    readers = (("from_dict(class)", lambda d: M.from_dict(d)), ("from_dict(instance)", lambda d: M().from_dict(d)),
+               ("from_pydict", lambda d: M().from_pydict(d)))
+    keys = []
+    for F, v in zip(attrs, vals):
+        one = M(**{F: v})
+        kk = []
+        for cname, casing in (("CAMEL", bp.Casing.CAMEL), ("SNAKE", bp.Casing.SNAKE)):
+            d = one.to_dict(casing)
+            if list(d.values()) != [v] or one.to_pydict(casing) != d:
+                raise AssertionError(f"field {F!r}: to_dict({cname}) = {d!r}, to_pydict = {one.to_pydict(casing)!r}")
+            kk.append(list(d)[0])
+        keys.append(tuple(kk))
+    ob["keys"] = keys
+
+    def delivered(key, v, F):
+        got = []
+        for how, rd in readers:
+            back = rd({key: v})
+            got.append(tuple(g for g in attrs if getattr(back, g) == v))
+        if len(set(got)) != 1:
+            raise AssertionError(f"dict readers disagree on key {key!r}: {got}")
+        return got[0] == (F,)
+
+    back3 = []
+    for s, F, v, (kc, ks) in zip(names, attrs, vals, keys):
+        back3.append((delivered(kc, v, F), delivered(ks, v, F), delivered(s, v, F)))
+    ob["back3"] = back3
+    # the whole object through to_dict -> from_dict, both casings, both forms
+    full = M(**dict(zip(attrs, vals)))
+    lossless = []
+    for cname, casing in (("CAMEL", bp.Casing.CAMEL), ("SNAKE", bp.Casing.SNAKE)):
+        d = full.to_dict(casing)
+        res = set()
+        for how, rd in readers:
+            back = rd(d)
+            res.add(all(getattr(back, F) == v for F, v in zip(attrs, vals)))
+        if len(res) != 1:
+            raise AssertionError(f"dict readers disagree on {d!r}")
+        lossless.append((res.pop(), len(d)))
+    ob["lossless"] = lossless
+    ob["built"] = True
+    I._cls.pop(tuple(attrs), None)
+    return ob
+
+
+def gap_expected(ob):
+    """the cv literal the model expression of this observation must evaluate to, and the expression"""
+    names = ob["names"]
+    nm = cl([cl([cs(a) for a in ob["attrs"]]), cbool(ob["py_legacy"]), cbool(ob["py_json"]),
+             cl([cl([cs(kc), cs(ks)]) for kc, ks in ob["keys"]]),
+             cl([cl([cs(a), cs(b)]) for a, b in ob["lk_jn"]])])
+    if not ob["built"]:
+        return f"gap_names {coq_names(names)}", nm
+    b3 = ob["back3"]
+    return (f"gap_class {coq_names(names)}",
+            cl([nm, cl([cbool(all(t)) for t in b3]), cl([cl([cbool(x) for x in t]) for t in b3]),
+                cbool(all(all(t) for t in b3))]))
+
+
+def gap_oracle(ob):
+    """C19_legacy_rule_keys_back / C19_legacy_rule_attrs_distinct on the real class: under the proto3 rule of protoc <= 21
+    attributes, camelCase keys and snake_case keys are pairwise distinct, the three keys of every field map back and the
+    whole object survives to_dict -> from_dict in both casings. Also, for ANY class that could be built: the object
+    survives a casing exactly when every field's key of that casing maps back. Yields (cls, what)."""
+    names = ob["names"]
+    if ob["built"]:
+        for ci, cname in ((0, "CAMEL"), (1, "SNAKE")):
+            allback = all(t[ci] for t in ob["back3"])
+            if ob["lossless"][ci][0] != allback:
+                yield ("class-roundtrip-differs-from-keys",
+                       f"class of proto fields {names}: to_dict(Casing.{cname}) -> from_dict is "
+                       f"{'lossless' if ob['lossless'][ci][0] else 'lossy'} although the single keys map back: "
+                       f"{[t[ci] for t in ob['back3']]}")
+    if not ob["py_legacy"]:
+        return
+    if not distinct(ob["attrs"]):
+        yield ("legacy-rule-attribute-collision",
+               f"proto fields {names} are unique after lower-casing and removing underscores, yet share a Python attribute: {ob['attrs']}")
+        return
+    if not ob["built"]:
+        return
+    for ci, cname in ((0, "camelCase"), (1, "snake_case")):
+        ks = [k[ci] for k in ob["keys"]]
+        if not distinct(ks):
+            yield ("legacy-rule-key-collision", f"proto fields {names} (legacy rule holds): two fields share a {cname} key: {ks}")
+    for s, F, t in zip(names, ob["attrs"], ob["back3"]):
+        for ok, what in zip(t, ("camelCase key", "snake_case key", "proto name")):
+            if not ok:
+                yield ("legacy-rule-key-not-mapped-back",
+                       f"class of proto fields {names} (unique after lower-casing and removing underscores): the {what} of field "
+                       f"{s!r} (attribute {F!r}) is not delivered to it by from_dict")
+    for (ok, nk), cname in zip(ob["lossless"], ("CAMEL", "SNAKE")):
+        if not ok or nk != len(names):
+            yield ("legacy-rule-roundtrip-lossy",
+                   f"class of proto fields {names} (legacy rule holds): to_dict(Casing.{cname}) has {nk} keys for {len(names)} fields "
+                   f"and from_dict {'restores' if ok else 'does not restore'} every value")
+
+
+def gap_protoc_one(ctx, I, idx, names):
+    """the real protoc (and the real plugin behind it) on a one-message proto3 file with these fields"""
+    import ast
+    from .. import plugin_util
+    proto = ("syntax = \"proto3\";\npackage gap;\nmessage M {\n"
+             + "".join(f"  int32 {s} = {i + 1};\n" for i, s in enumerate(names)) + "}\n")
+    rc, out, out_dir = plugin_util.generate(ctx.work, {"gap.proto": proto}, f"c19gap{ctx.seed}x{idx}")
+    res = {"names": names, "rc": rc, "out": out[-400:], "fields": None}
+    if rc != 0:
+        # protoc's own diagnostics name the .proto file and a position; anything else is the plugin failing
+        res["protoc_rejected"] = bool(re.search(r"gap\.proto:\d+:\d+:", out))
+        res["json_conflict"] = "JSON name" in out
+        return res
+    tree = ast.parse(open(os.path.join(out_dir, "gap", "__init__.py")).read())
+    for node in tree.body:
+        if isinstance(node, ast.ClassDef) and node.name == "M":
+            res["fields"] = [st.target.id for st in node.body if isinstance(st, ast.AnnAssign) and isinstance(st.target, ast.Name)]
+    return res
+
+
+def gap_fail(ctx, kind, what, cls=None, **kw):
+    """ctx.fail, and the evidence counts what this stage reported (on the unchanged tree: only the K38 reports of the protoc sample)"""
+    ctx.count(f"gap_failures:{kind}:{cls or kw.get('input', ['?'])[0]}")
+    ctx.fail(kind, what, cls=cls, **kw)
+
+
+def gap_stage_impl(ctx, I):
+    """implementation side of the gap tie: observations of real classes, the oracle, the protoc sample. Returns the cases
+    [(model_expr, expected, descr)] for gap_stage_model."""
+    rng = ctx.rng
+    lists = [list(l) for l in GAP_FIXED]
+    for _ in range(300 if not ctx.thorough else 3000):
+        lists.append(gap_list(rng))
+    cases, obs, seen = [], [], set()
+    for names in lists:
+        if tuple(names) in seen or not (2 <= len(names) <= 5) or not distinct(names):
+            continue
+        seen.add(tuple(names))
+        try:
+            ob = gap_observe(I, names)
+        except Exception as e:  # noqa
+            gap_fail(ctx, "oracle", f"class of proto fields {names}: the public field API raised {e!r}", cls="raised", input=["gap_class", names])
+            continue
+        obs.append(ob)
+        ctx.count("gap_lists")
+        if ob.get("skip") in ("unusable-attribute", "attribute-collision+unusable"):
+            ctx.count("gap_class:class not built (reserved or unusable attribute): attributes and rules compared only")
+            cases.append((f"gap_rules {coq_names(names)}", cl([cl([cs(a) for a in ob["attrs"]]), cbool(ob["py_legacy"]), cbool(ob["py_json"])]),
+                          ["gap_class", names]))
+            for cls_, what in gap_oracle(ob):
+                gap_fail(ctx, "oracle", what, cls=cls_, input=["gap_class", names])
+            continue
+        m, e = gap_expected(ob)
+        cases.append((m, e, ["gap_class", names]))
+        if ob["built"]:
+            kb = all(all(t) for t in ob["back3"])
+            ctx.count(f"gap_class:legacy_rule={int(ob['py_legacy'])},json_rule={int(ob['py_json'])},attrs_distinct=1,"
+                      f"keys_back_all={int(kb)},lossless_camel={int(ob['lossless'][0][0])},lossless_snake={int(ob['lossless'][1][0])}")
+            ctx.count("gap_keys_back_fields", len(names))
+            ctx.count("gap_keys_back_fields_false", sum(1 for t in ob["back3"] if not all(t)))
+            ctx.count("gap_from_dict_calls", len(names) * 9 + 6)
+            if len(names) >= 3 or not kb:
+                ctx.seen_nontrivial(("gap",) + tuple(names))
+        else:
+            # two names -> one attribute: the K38 class; the class cannot be built with the field API (counted, not compared)
+            ctx.count(f"gap_class:legacy_rule={int(ob['py_legacy'])},json_rule={int(ob['py_json'])},attrs_distinct=0 "
+                      f"(K38 class {CLS_SIBLING}: class not built)")
+        for cls_, what in gap_oracle(ob):
+            gap_fail(ctx, "oracle", what, cls=cls_, input=["gap_class", names])
+        if ob["built"] and ob["py_json"] and not (ob["lossless"][0][0] and ob["lossless"][1][0]):
+            # outside both theorems (the legacy rule fails) and outside K38 (the attributes differ): protoc >= 22 accepts the
+            # names, two attributes share a camelCase key (Foo1 / foo_1 -> foo1), to_dict(CAMEL) merges them and from_dict gives
+            # the snake key of one to the other. Model and implementation AGREE on it (keys_back is false); counted and noted.
+            ctx.count("gap_class:json_rule=1,attrs_distinct=1,value lost in to_dict->from_dict (sibling camelCase keys collide; not K38)")
+            if not any("sibling camelCase keys collide" in n for n in ctx.notes):
+                ctx.notes.append(f"gap tie: proto fields {names} pass protoc >= 22's JSON-name rule and get distinct attributes {ob['attrs']}, "
+                                 f"but sibling camelCase keys collide {[k[0] for k in ob['keys']]}: to_dict -> from_dict loses a value "
+                                 f"(lossless CAMEL/SNAKE = {ob['lossless'][0][0]}/{ob['lossless'][1][0]}); keys_back of the model says so too "
+                                 f"(legacy_rule_ok = false, so no theorem is contradicted); not reported as a violation")
+    ctx.cov["evaluations"] += len(obs)
+    # ---- protoc's own verdict on a sample: every fixed list's kind, then random ones, a third of them expected to be refused
+    usable = [ob for ob in obs if ob.get("skip") != "unusable-attribute" and "attribute-collision+unusable" != ob.get("skip")]
+    nprot = 24 if not ctx.thorough else 200
+    fixed = [ob for ob in usable if ob["names"] in GAP_FIXED][:nprot // 2]
+    rest = [ob for ob in usable if ob["names"] not in GAP_FIXED]
+    rej = [ob for ob in rest if not ob["py_json"]]
+    coll = [ob for ob in rest if ob["py_json"] and not distinct(ob["attrs"])]
+    acc = [ob for ob in rest if ob["py_json"] and distinct(ob["attrs"])]
+    room = nprot - len(fixed)
+    sample = fixed + rej[:room // 3] + coll[:room // 3]
+    sample += acc[:nprot - len(sample)]
+    from .. import plugin_util
+    plugin_util.shim_dir(ctx.work)
+    with ThreadPoolExecutor(max_workers=lib.JOBS) as ex:
+        def one(a):
+            try:
+                return gap_protoc_one(ctx, I, a[0], a[1]["names"])
+            except Exception as e:  # noqa
+                return {"names": a[1]["names"], "error": repr(e)}
+        results = list(ex.map(one, enumerate(sample)))
+    for ob, r in zip(sample, results):
+        names = ob["names"]
+        if "error" in r:
+            gap_fail(ctx, "oracle", f"running protoc and the plugin on a message with fields {names} raised {r['error']}", cls="raised",
+                     input=["gap_protoc", names])
+            continue
+        if r["rc"] != 0 and not r["protoc_rejected"]:
+            gap_fail(ctx, "oracle", f"protoc accepts fields {names} but the plugin fails: {r['out']}", cls="raised", input=["gap_protoc", names])
+            continue
+        accepted = r["rc"] == 0
+        collide = not distinct(ob["attrs"])
+        ctx.count(f"gap_protoc:protoc_accepts={int(accepted)},json_rule(py)={int(ob['py_json'])},legacy_rule={int(ob['py_legacy'])},"
+                  f"attrs_distinct={int(not collide)}")
+        cases.append((f"gap_json_rule {coq_names(names)}", cbool(accepted), ["gap_protoc", names, r["out"][-200:] if not accepted else "accepted"]))
+        if accepted != ob["py_json"]:
+            gap_fail(ctx, "corr", f"protoc {'accepts' if accepted else 'refuses'} sibling fields {names}; the JSON-name rule read in Python says "
+                             f"{ob['py_json']} ({r['out'][-200:]})", input=["gap_protoc", names], no_input=True,
+                     theorem_or_correspondence="T3 json_rule_ok (Model/C19GapDefs.v) <-> protoc CheckFieldJsonNameUniqueness")
+        if not accepted:
+            if not r["json_conflict"]:
+                ctx.count("gap_protoc:refused for another reason than the JSON names")
+            continue
+        flds = r["fields"]
+        if flds is None:
+            gap_fail(ctx, "oracle", f"generated module for fields {names} has no class M", cls="raised", input=["gap_protoc", names])
+            continue
+        cases.append((f"CL (map CB (fields_of {coq_names(names)}))", cl([cs(f) for f in flds]), ["gap_plugin_fields", names]))
+        if len(set(flds)) != len(names):
+            # protoc accepts the message and the generated class has fewer attributes than the message has fields
+            gap_fail(ctx, "oracle", f"protoc accepts sibling fields {names}; the plugin declares the attributes {flds}: "
+                               f"{len(names) - len(set(flds))} field(s) of the message are lost in the class",
+                     cls=CLS_SIBLING if collide and flds == ob["attrs"] else "generated-class-lost-field", input=["gap_protoc", names])
+        if ob["py_legacy"] and collide:
+            pass        # already reported by gap_oracle (legacy-rule-attribute-collision)
+    ctx.count("gap_protoc_runs", len(sample))
+    return cases
+
+
+def gap_stage_model(ctx, cases):
+    """model side: gap_class / gap_names / gap_json_rule of Model/C19GapCv.v by vm_compute against the observations"""
+    if not cases:
+        return
+    try:
+        bad = lib.coq_compare(ctx, "c19gap", GAP_IMPORTS, [(m, e) for m, e, _ in cases], chunk=40)
+    except RuntimeError as e:
+        gap_fail(ctx, "corr", "the class-level predicates could not be evaluated: " + str(e)[-500:], no_input=True,
+                 theorem_or_correspondence="T2 Model/C19GapDefs.v <-> real message classes")
+        return
+    ctx.cov["disagreements_checked"] += len(cases)
+    ctx.cov["evaluations"] += len(cases)
+    ctx.count("gap_model_cases_compared", len(cases))
+    for i in bad[:10]:
+        d = cases[i][2]
+        if d[0] == "gap_protoc":
+            what = (f"json_rule_ok of the model and the real protoc disagree on sibling fields {d[1]} (protoc: {d[2]})")
+            thm = "T3 json_rule_ok (Model/C19GapDefs.v) <-> protoc CheckFieldJsonNameUniqueness"
+        elif d[0] == "gap_plugin_fields":
+            what = f"fields_of of the model and the attributes the real plugin generates differ for proto fields {d[1]}"
+            thm = "T2 fields_of (Model/C19GapDefs.v) <-> generated class"
+        else:
+            what = (f"the class-level predicates of the model (fields_of / legacy_rule_ok / json_rule_ok / keys / keys_back) and the real "
+                    f"class disagree on proto fields {d[1]}")
+            thm = "T2 keys_back, legacy_rule_ok, json_rule_ok, fields_of (Model/C19GapDefs.v) <-> real message class / from_dict"
+        gap_fail(ctx, "corr", what, input=list(d), expected_model=lib.coq_eval(ctx, GAP_IMPORTS, cases[i][0]), observed_impl=cases[i][1],
+                 theorem_or_correspondence=thm)
+    i = len(cases) // 2
+    ctx.sample({"case": cases[i][2], "model_expr": cases[i][0], "impl": cases[i][1]})
 
 
 # ----------------------------------------------------------------------------------------------
@@ -659,6 +1066,11 @@ def run(ctx):
     except Exception as e:  # noqa
         ctx.fail("oracle", f"running the real plugin raised {e!r}", cls="raised", input="plugin")
     ctx.cov["evaluations"] += len(pairs) + ne2e * 8
+    try:
+        gap_cases = gap_stage_impl(ctx, I)
+    except Exception as e:  # noqa
+        gap_cases = []
+        ctx.fail("oracle", f"the class-level stage (gap tie) raised {e!r}", cls="raised", input="gap tie")
     if ctx.build_ok is False:
         # gen/C19Tables.v or the proofs no longer build against this tree: the model cannot be evaluated; the oracle
         # above has already looked for a failing input, lib.finish reports the proof break
@@ -673,6 +1085,9 @@ def run(ctx):
                  theorem_or_correspondence="T2 correspondence Model/Casing.v <-> betterproto.casing / compile.naming / from_dict")
     for i in (0, len(pairs) // 3, len(pairs) // 2, len(pairs) - 1):
         ctx.sample({"case": descr[i], "model_expr": pairs[i][0], "impl": pairs[i][1]})
+
+    # ---------------------------------------------------------------- the class-level predicates of the gap closing
+    gap_stage_model(ctx, gap_cases)
 
     # ---------------------------------------------------------------- the regex specification against CPython's re
     regex_spec_stage(ctx, I, [s for _, s in names])
@@ -783,6 +1198,39 @@ def replay(ctx, obj):
         print(f"from_dict gives key {inp[2]!r} of a class with fields {inp[1]} to field {got!r}; "
               + ("the model disagrees" if bad else "the model agrees"))
         return 1 if bad else 0
+    elif isinstance(inp, list) and len(inp) >= 2 and inp[0] in ("gap_class", "gap_protoc", "gap_plugin_fields"):
+        names = inp[1]
+        known = {k["cls"] for k in lib.load_known(ctx.pid) if k["status"] == "open"}
+        rc = 0
+        try:
+            ob = gap_observe(I, names)
+        except Exception as e:  # noqa
+            print(f"FAILS [raised] class of proto fields {names}: the public field API raised {e!r}")
+            return 1
+        print(f"proto fields {names}: attributes {ob['attrs']}, legacy rule {ob['py_legacy']}, JSON-name rule {ob['py_json']}, "
+              f"keys {ob.get('keys')}, (camel, snake, proto name) mapped back {ob.get('back3')}, whole object lossless {ob.get('lossless')}")
+        pairs = []
+        if ob.get("skip") in ("unusable-attribute", "attribute-collision+unusable"):
+            pairs.append((f"gap_rules {coq_names(names)}", cl([cl([cs(a) for a in ob["attrs"]]), cbool(ob["py_legacy"]), cbool(ob["py_json"])])))
+        else:
+            pairs.append(gap_expected(ob))
+            for cls_, what in gap_oracle(ob):
+                print(("KNOWN-FINDING " if cls_ in known else "FAILS ") + f"[{cls_}] {what}")
+                rc = rc or (0 if cls_ in known else 1)
+        if inp[0] != "gap_class":
+            r = gap_protoc_one(ctx, I, 0, names)
+            print(f"protoc: rc={r['rc']} {r['out'][-200:] if r['rc'] else 'accepted'}; generated attributes {r['fields']}")
+            if r["rc"] == 0 or r.get("protoc_rejected"):
+                pairs.append((f"gap_json_rule {coq_names(names)}", cbool(r["rc"] == 0)))
+            if r["fields"] is not None:
+                pairs.append((f"CL (map CB (fields_of {coq_names(names)}))", cl([cs(f) for f in r["fields"]])))
+                if len(set(r["fields"])) != len(names):
+                    c = CLS_SIBLING if r["fields"] == ob["attrs"] else "generated-class-lost-field"
+                    print(("KNOWN-FINDING " if c in known else "FAILS ") + f"[{c}] the generated class has the attributes {r['fields']}")
+                    rc = rc or (0 if c in known else 1)
+        bad = lib.coq_compare(ctx, "c19replay", GAP_IMPORTS, pairs)
+        print("the model disagrees on: " + "; ".join(pairs[i][0] for i in bad) if bad else "the model agrees")
+        return 1 if bad else rc
     elif isinstance(inp, list) and len(inp) == 2 and inp[0] in ("case_name", "casing(non-ascii)"):
         s = inp[1]
         if inp[0] == "case_name":
